@@ -52,10 +52,10 @@ M("c14-forwarded-after-transition-selection", "R14.4",
         "            if !enabledTransitions.isEmpty() {\n                self.microstep(datamodel, &enabledTransitions.toList());\n            }\n"),
   (FSM, "            for invokeId in toForward {\n", "            let toForward2 = toForward.clone();\n            for invokeId in toForward {\n"))
 M("c14-done-invoke-keeps-the-child", "R14.5",
-  (FSM, "                if externalEvent.name.starts_with(EVENT_DONE_INVOKE_PREFIX) {", "                if externalEvent.name.starts_with(\"done.state.\") {"))
+  (FSM, "            if externalEvent.name.starts_with(EVENT_DONE_INVOKE_PREFIX) {", "            if externalEvent.name.starts_with(\"done.state.\") {"))
 M("c14-child-removed-by-any-of-its-events", "R14.5",
-  (FSM, "                if externalEvent.name.starts_with(EVENT_DONE_INVOKE_PREFIX) {\n                    if let Some(invoke_id) = &externalEvent.invoke_id {",
-        "                {\n                    if let Some(invoke_id) = &externalEvent.invoke_id {"))
+  (FSM, "            if externalEvent.name.starts_with(EVENT_DONE_INVOKE_PREFIX) {\n                if let Some(invoke_id) = &externalEvent.invoke_id {",
+        "            {\n                if let Some(invoke_id) = &externalEvent.invoke_id {"))
 M("c14-undeclared-data-injected", "R14.6",
   (FSM, "                            if root_state.data.get_mut(&val.name).is_some() {", "                            if root_state.data.get_mut(&val.name).is_none() {"))
 M("c14-all-passed-data-injected", "R14.6",
@@ -71,9 +71,9 @@ B("c14-benign-trace-in-cancel-invoke",
   (FSM, "        get_global!(datamodel).child_sessions.remove(invoke_id);\n        datamodel.send(",
         "        debug!(\"cancel invoke {}\", invoke_id);\n        get_global!(datamodel).child_sessions.remove(invoke_id);\n        datamodel.send("))
 B("c14-benign-done-invoke-match-instead-of-if-let",
-  (FSM, "                    if let Some(invoke_id) = &externalEvent.invoke_id {\n                        get_global!(datamodel).child_sessions.remove(invoke_id);\n                    }\n",
-        "                    match &externalEvent.invoke_id {\n                        Some(invoke_id) => {\n                            get_global!(datamodel).child_sessions.remove(invoke_id);\n                        }\n"
-        "                        None => {}\n                    }\n"))
+  (FSM, "                if let Some(invoke_id) = &externalEvent.invoke_id {\n                    get_global!(datamodel).child_sessions.remove(invoke_id);\n                }\n",
+        "                match &externalEvent.invoke_id {\n                    Some(invoke_id) => {\n                        get_global!(datamodel).child_sessions.remove(invoke_id);\n                    }\n"
+        "                    None => {}\n                }\n"))
 B("c14-benign-declared-test-by-contains-key",
   (FSM, "                            if root_state.data.get_mut(&val.name).is_some() {", "                            if root_state.data.contains_key(&val.name) {"))
 B("c14-benign-hoisted-sorted-invokes",
